@@ -117,6 +117,7 @@ CASES = [
     "np.asfortranarray(np.asarray([[1, 2], [3, 4]])).ravel(order='K'), np.ascontiguousarray(np.asarray([[1, 2], [3, 4]]).T).ravel(order='K'), np.asarray([[1, 2], [3, 4]])[::-1].ravel(order='K')",
     "np.asarray([1, 2, 3])[::-1], np.asarray([1, 2, 3])[5:], np.asarray([1, 2, 3])[-2:]",
     "np.array_equal(np.asarray([1.0, 2.0]), None), np.array_equal(None, None), np.array_equal(np.asarray([1, 2]), [1, 2])",
+    "np.shares_memory(np.arange(6)[1:3], np.arange(6)), (lambda a: (np.shares_memory(a[1:3], a), np.shares_memory(a[:2], a[2:]), np.shares_memory(a.copy(), a)))(np.arange(6))",
     "np.diff(np.asarray([1.0, 2.5, 4.0])), np.diff(np.asarray([1.0, 2.5]), append=7.0), np.diff(np.asarray([1, 2]), prepend=0)",
     "np.nan_to_num(np.asarray([1.5, np.nan, 3.0])), np.nan_to_num(np.asarray([1, 2])), np.nan_to_num(np.asarray([np.nan, np.nan, 2.0])).dtype",
     "np.asarray([[0.0, 1.0], [1.0, 2.0]])[1:, 0], np.asarray([[0.0, 1.0], [1.0, 2.0]])[:-1, 1]",
